@@ -61,7 +61,7 @@ def table(H, P):
     i = np.arange(H)
     hmass = np.array([1e13, 1e14, 10 ** 12.5, 1e15, 1e12])[(i // 2) % 5]     # neighbouring hosts share a mass but not their secondary properties
     hrand = np.array([0.001, 0.3, 0.02, 0.9, 0.0005, 0.5, 0.7, 0.1])[(i * 3) % 8] * np.where(i % 7 == 3, 0.01, 1.0)
-    hd = dict(hpos=np.stack([i * 3.0 - 40, i * 1.5 + 7, 50.0 - i * 2.5], axis=1).astype(np.float64).reshape(H, 3),
+    hd = dict(hpos=np.stack([(i * 3.0) % 170 - 85, (i * 1.5 + 7) % 160 - 80, 50.0 - (i * 2.5) % 140], axis=1).astype(np.float64).reshape(H, 3),
               hvel=np.stack([100.0 + i, -50.0 + 2 * i, 300.0 - 7 * i], axis=1).astype(np.float64).reshape(H, 3),
               hmass=hmass.astype(np.float64), hid=(i * 10 + 5).astype(np.int64), hmultis=np.where(i % 4 == 1, 0.5, 1.0),
               hrandoms=hrand.astype(np.float64), hveldev=np.stack([i * 0.5, -i * 0.25, 3.0 + i], axis=1).astype(np.float64).reshape(H, 3),
@@ -71,7 +71,7 @@ def table(H, P):
     pinds = np.sort((j * 7) % H) if H else np.zeros(0, dtype=np.int64)
     pinds = pinds.astype(np.int64)
     prand = np.array([0.0002, 0.4, 0.01, 0.95, 0.05, 0.0001])[(j * 5) % 6]
-    pd = dict(ppos=(hd['hpos'][pinds] + np.stack([0.1 * j, -0.2 * j, 0.05 * j], axis=1)).reshape(P, 3),
+    pd = dict(ppos=(hd['hpos'][pinds] + np.stack([0.1 * (j % 40), -0.2 * (j % 30), 0.05 * (j % 50)], axis=1)).reshape(P, 3),
               pvel=(hd['hvel'][pinds] + np.stack([10.0 + j, -j, 2.0 * j], axis=1)).reshape(P, 3),
               phvel=hd['hvel'][pinds].reshape(P, 3), phmass=hd['hmass'][pinds], phid=hd['hid'][pinds],
               pweights=np.where(j % 3 == 0, 1.0, 0.4), prandoms=prand.astype(np.float64), pinds=pinds,
@@ -215,6 +215,10 @@ def run_twin(case):
                     out = T['ggc'](hd, pd, tr, params_for(case), Nthread=nthread, enable_ranks=True, rsd=rsd, nfw=False, write_to_disk=False, verbose=False)
                 except Exception as e:
                     import traceback
+                    from vf import core
+                    st = core.stale_reason(e)
+                    if st:
+                        raise core.Stale(st)
                     add('twin:raises:' + type(e).__name__, f'{tag}: ' + ''.join(traceback.format_exception(e))[-800:])
                     break
                 ntw += 1
@@ -237,8 +241,10 @@ def run_twin(case):
                     pairs += reg.pairs_checked
                     for c in reg.conflicts:
                         add('por:conflict:' + reg.label.split(':')[0], f'{tag}: region {reg.label}: bodies {c[3]} both access {c[0]} element {c[2]} ({c[1]})')
+                outs = [np.asarray(v) for v in f.values() if isinstance(v, np.ndarray) and v.size]
                 for root in rt.roots:
-                    if root.kind == 'empty' and root.written is not None and not root.written.all() and root.size:
+                    if root.kind == 'empty' and root.written is not None and not root.written.all() and root.size \
+                            and any(np.shares_memory(o, root.arr) for o in outs):       # scratch arrays may have unused padding
                         add('por:output-element-never-written:' + root.label.split(':')[0],
                             f'{tag}: {int((~root.written).sum())} of {root.size} elements of the array allocated at {root.label} were never written')
                 if nthread > 1 and ngal(f) > 0:
